@@ -112,13 +112,14 @@ type Solver struct {
 	Consensus bool // thorough: run all solvers
 	mu       sync.Mutex
 	cache    map[string]solveResult
+	inflight map[string]chan struct{}
 	TotalSecs map[string]float64
 	Counts   map[string]int
 }
 
 func NewSolver(dir string, timeout time.Duration, consensus bool) *Solver {
 	os.MkdirAll(dir, 0o755)
-	return &Solver{Dir: dir, Timeout: timeout, Consensus: consensus, cache: map[string]solveResult{}, TotalSecs: map[string]float64{}, Counts: map[string]int{}}
+	return &Solver{Dir: dir, Timeout: timeout, Consensus: consensus, cache: map[string]solveResult{}, inflight: map[string]chan struct{}{}, TotalSecs: map[string]float64{}, Counts: map[string]int{}}
 }
 
 // Solve discharges one obligation (race of the portfolio; first definitive answer wins).
@@ -130,13 +131,32 @@ func (s *Solver) Solve(o *Obligation) {
 	q := o.Query(false)
 	sum := sha256.Sum256([]byte(q[strings.Index(q, "\n"):]))
 	key := fmt.Sprintf("%x", sum[:12])
-	s.mu.Lock()
-	if r, ok := s.cache[key]; ok {
+	for {
+		s.mu.Lock()
+		if r, ok := s.cache[key]; ok {
+			s.mu.Unlock()
+			o.Status, o.Solver, o.Secs = r.status, r.solver+"(cached)", 0
+			if r.status != "unsat" {
+				o.Model = r.out
+			}
+			return
+		}
+		if ch, busy := s.inflight[key]; busy {
+			s.mu.Unlock()
+			<-ch
+			continue
+		}
+		done := make(chan struct{})
+		s.inflight[key] = done
 		s.mu.Unlock()
-		o.Status, o.Solver, o.Secs = r.status, r.solver+"(cached)", 0
-		return
+		defer func() {
+			s.mu.Lock()
+			delete(s.inflight, key)
+			s.mu.Unlock()
+			close(done)
+		}()
+		break
 	}
-	s.mu.Unlock()
 	file := filepath.Join(s.Dir, key+".smt2")
 	os.WriteFile(file, []byte(q), 0o644)
 	timeout := s.Timeout
